@@ -110,6 +110,9 @@ def tlc(module, cfg, workers=None, simulate=None, depth=None, seed=None, timeout
         m = re.search(r"Error: Action property (\S+) is violated", out)
         if m:
             res.violation = m.group(1)
+        m = re.search(r"Error: Temporal property (\S+) was violated", out)
+        if m:
+            res.violation = res.violation or m.group(1)
         if "Temporal properties were violated" in out:
             res.violation = res.violation or "temporal"
         if res.violation is None and res.error is None:
